@@ -15,6 +15,7 @@ structure G (cfg : Cfg) (s : St) : Prop where
   ack : Gack s
   fo : Gfo s
   pay : Gpay s
+  gr : Ggr cfg s
   inc : EnvHyp.sane → Ginc cfg s
 
 /-- `x` is a good successor of `s`: the invariant holds and the executing generator is untouched. -/
@@ -55,6 +56,10 @@ macro "gfo_fields" : tactic => `(tactic|
 macro "gpay_fields" : tactic => `(tactic|
   (constructor <;> ((try unfold emit at *); grind [C02.payStep, runR_cons])))
 
+/-- close `Ggr cfg X` likewise -/
+macro "ggr_fields" : tactic => `(tactic|
+  (constructor <;> ((try unfold emit at *); grind [C14.grStep, runR_cons])))
+
 /-- close `Ginc cfg X` likewise -/
 syntax "ginc_fields" ident : tactic
 macro_rules
@@ -69,15 +74,16 @@ syntax "leaf" ident : tactic
 macro_rules
   | `(tactic| leaf $hx) => `(tactic|
       (obtain ⟨⟨⟨h1, h2, h2b, h3, h4, h5, h6, h7, h8, h9, h10, h11, h12, h13⟩,
-                ⟨k1, k2, k3, k4, k5, k6⟩, ⟨r1, r2⟩, ⟨a1, a2, a3⟩, ⟨f1, f2, f3⟩, ⟨p1, p2, p3, p4⟩, hinc⟩, hfr⟩ := $hx
-       refine ⟨⟨?_, ?_, ?_, ?_, ?_, ?_, ?_⟩, ?_⟩
-       · (clear hinc p1 p2 p3 p4; g1_fields)
-       · (clear hinc p1 p2 p3 p4; gsf_fields)
-       · (clear hinc p1 p2 p3 p4; gres_fields)
-       · (clear hinc p1 p2 p3 p4; gack_fields)
-       · (clear hinc p1 p2 p3 p4; gfo_fields)
-       · (clear hinc h1 h2 h2b h3 h4 h5 h6 h7 h8 h9 h10 h11 h12 h13 k1 k2 k3 k4 a1 a2 a3 r1 r2 f1 f2 f3; gpay_fields)
-       · (clear p1 p2 p3 p4; ginc_fields hinc)
+                ⟨k1, k2, k3, k4, k5, k6⟩, ⟨r1, r2⟩, ⟨a1, a2, a3⟩, ⟨f1, f2, f3⟩, ⟨p1, p2, p3, p4⟩, ⟨w1, w2, w3⟩, hinc⟩, hfr⟩ := $hx
+       refine ⟨⟨?_, ?_, ?_, ?_, ?_, ?_, ?_, ?_⟩, ?_⟩
+       · (clear hinc p1 p2 p3 p4 w1 w2 w3; g1_fields)
+       · (clear hinc p1 p2 p3 p4 w1 w2 w3; gsf_fields)
+       · (clear hinc p1 p2 p3 p4 w1 w2 w3; gres_fields)
+       · (clear hinc p1 p2 p3 p4 w1 w2 w3; gack_fields)
+       · (clear hinc p1 p2 p3 p4 w1 w2 w3; gfo_fields)
+       · (clear hinc h1 h2 h2b h3 h4 h5 h6 h7 h8 h9 h10 h11 h12 h13 k1 k2 k3 k4 a1 a2 a3 r1 r2 f1 f2 f3 w1 w2 w3; gpay_fields)
+       · (clear hinc h1 h2 h2b h3 h4 h5 h6 h7 h8 h9 h10 h11 h12 h13 k1 k2 k3 k4 a1 a2 a3 r1 r2 f1 f2 f3 p1 p2 p3 p4; ggr_fields)
+       · (clear p1 p2 p3 p4 w1 w2 w3; ginc_fields hinc)
        · first | exact hfr | (simp only []; exact hfr) | grind))
 
 /-- `G cfg X` for an explicit update `X` of `x` (which may replace the frame), from `hx : G cfg x`. -/
@@ -85,15 +91,16 @@ syntax "gleaf" ident : tactic
 macro_rules
   | `(tactic| gleaf $hx) => `(tactic|
       (obtain ⟨⟨h1, h2, h2b, h3, h4, h5, h6, h7, h8, h9, h10, h11, h12, h13⟩,
-               ⟨k1, k2, k3, k4, k5, k6⟩, ⟨r1, r2⟩, ⟨a1, a2, a3⟩, ⟨f1, f2, f3⟩, ⟨p1, p2, p3, p4⟩, hinc⟩ := $hx
-       refine ⟨?_, ?_, ?_, ?_, ?_, ?_, ?_⟩
-       · (clear hinc p1 p2 p3 p4; g1_fields)
-       · (clear hinc p1 p2 p3 p4; gsf_fields)
-       · (clear hinc p1 p2 p3 p4; gres_fields)
-       · (clear hinc p1 p2 p3 p4; gack_fields)
-       · (clear hinc p1 p2 p3 p4; gfo_fields)
-       · (clear hinc h1 h2 h2b h3 h4 h5 h6 h7 h8 h9 h10 h11 h12 h13 k1 k2 k3 k4 a1 a2 a3 r1 r2 f1 f2 f3; gpay_fields)
-       · (clear p1 p2 p3 p4; ginc_fields hinc)))
+               ⟨k1, k2, k3, k4, k5, k6⟩, ⟨r1, r2⟩, ⟨a1, a2, a3⟩, ⟨f1, f2, f3⟩, ⟨p1, p2, p3, p4⟩, ⟨w1, w2, w3⟩, hinc⟩ := $hx
+       refine ⟨?_, ?_, ?_, ?_, ?_, ?_, ?_, ?_⟩
+       · (clear hinc p1 p2 p3 p4 w1 w2 w3; g1_fields)
+       · (clear hinc p1 p2 p3 p4 w1 w2 w3; gsf_fields)
+       · (clear hinc p1 p2 p3 p4 w1 w2 w3; gres_fields)
+       · (clear hinc p1 p2 p3 p4 w1 w2 w3; gack_fields)
+       · (clear hinc p1 p2 p3 p4 w1 w2 w3; gfo_fields)
+       · (clear hinc h1 h2 h2b h3 h4 h5 h6 h7 h8 h9 h10 h11 h12 h13 k1 k2 k3 k4 a1 a2 a3 r1 r2 f1 f2 f3 w1 w2 w3; gpay_fields)
+       · (clear hinc h1 h2 h2b h3 h4 h5 h6 h7 h8 h9 h10 h11 h12 h13 k1 k2 k3 k4 a1 a2 a3 r1 r2 f1 f2 f3 p1 p2 p3 p4; ggr_fields)
+       · (clear p1 p2 p3 p4 w1 w2 w3; ginc_fields hinc)))
 
 /-- `Pres cfg h` for a handler that calls no other handler: unfold and check every path. -/
 syntax "pres_leaf" "[" ident* "]" : tactic
@@ -104,15 +111,16 @@ macro_rules
        unfold $ds*
        (try unfold emit)
        obtain ⟨⟨⟨h1, h2, h2b, h3, h4, h5, h6, h7, h8, h9, h10, h11, h12, h13⟩,
-                ⟨k1, k2, k3, k4, k5, k6⟩, ⟨r1, r2⟩, ⟨a1, a2, a3⟩, ⟨f1, f2, f3⟩, ⟨p1, p2, p3, p4⟩, hinc⟩, hfr⟩ := hx
-       refine ⟨⟨?_, ?_, ?_, ?_, ?_, ?_, ?_⟩, ?_⟩
-       · (clear hinc p1 p2 p3 p4; g1_fields)
-       · (clear hinc p1 p2 p3 p4; gsf_fields)
-       · (clear hinc p1 p2 p3 p4; gres_fields)
-       · (clear hinc p1 p2 p3 p4; gack_fields)
-       · (clear hinc p1 p2 p3 p4; gfo_fields)
-       · (clear hinc h1 h2 h2b h3 h4 h5 h6 h7 h8 h9 h10 h11 h12 h13 k1 k2 k3 k4 a1 a2 a3 r1 r2 f1 f2 f3; gpay_fields)
-       · (clear p1 p2 p3 p4; ginc_fields hinc)
+                ⟨k1, k2, k3, k4, k5, k6⟩, ⟨r1, r2⟩, ⟨a1, a2, a3⟩, ⟨f1, f2, f3⟩, ⟨p1, p2, p3, p4⟩, ⟨w1, w2, w3⟩, hinc⟩, hfr⟩ := hx
+       refine ⟨⟨?_, ?_, ?_, ?_, ?_, ?_, ?_, ?_⟩, ?_⟩
+       · (clear hinc p1 p2 p3 p4 w1 w2 w3; g1_fields)
+       · (clear hinc p1 p2 p3 p4 w1 w2 w3; gsf_fields)
+       · (clear hinc p1 p2 p3 p4 w1 w2 w3; gres_fields)
+       · (clear hinc p1 p2 p3 p4 w1 w2 w3; gack_fields)
+       · (clear hinc p1 p2 p3 p4 w1 w2 w3; gfo_fields)
+       · (clear hinc h1 h2 h2b h3 h4 h5 h6 h7 h8 h9 h10 h11 h12 h13 k1 k2 k3 k4 a1 a2 a3 r1 r2 f1 f2 f3 w1 w2 w3; gpay_fields)
+       · (clear hinc h1 h2 h2b h3 h4 h5 h6 h7 h8 h9 h10 h11 h12 h13 k1 k2 k3 k4 a1 a2 a3 r1 r2 f1 f2 f3 p1 p2 p3 p4; ggr_fields)
+       · (clear p1 p2 p3 p4 w1 w2 w3; ginc_fields hinc)
        · grind))
 
 /-- the outstanding fetch/offset request is never the commit request -/
@@ -134,13 +142,28 @@ theorem sf_ne_commit {cfg : Cfg} {s : St} (hs : G cfg s) (r : CommitReq) (hr : s
 theorem crash_pres (cfg : Cfg) (site : String) : Pres cfg (crash site) := by pres_leaf [crash]
 theorem emitAct_pres (cfg : Cfg) (a : Act) : Pres cfg (emit (.act a)) := by pres_leaf []
 theorem probe_pres (cfg : Cfg) : Pres cfg probe := by pres_leaf [probe]
-theorem startErrback_pres (cfg : Cfg) (f : Fail) : Pres cfg (startErrback f) := by pres_leaf [startErrback]
+theorem startErrback_pres (cfg : Cfg) (f : Fail) (hf : f ≠ .tooSmall) : Pres cfg (startErrback f) := by
+  cases f with
+  | tooSmall => exact absurd rfl hf
+  | ext k t => pres_leaf [startErrback]
+  | invalidGroup => pres_leaf [startErrback]
+  | opInProgress n => pres_leaf [startErrback]
 theorem retryFetch_pres (cfg : Cfg) (a : Option Rat) : Pres cfg (retryFetch cfg a) := by pres_leaf [retryFetch]
 theorem looperReset_pres (cfg : Cfg) : Pres cfg (looperReset cfg) := by pres_leaf [looperReset]
-theorem handleAutoCommitError_pres (cfg : Cfg) (f : Fail) : Pres cfg (handleAutoCommitError f) := by
-  pres_leaf [handleAutoCommitError startErrback]
-theorem handleProcessorError_pres (cfg : Cfg) (f : Fail) : Pres cfg (handleProcessorError f) := by
-  pres_leaf [handleProcessorError startErrback]
+theorem handleAutoCommitError_pres (cfg : Cfg) (f : Fail) (hf : f ≠ .tooSmall) : Pres cfg (handleAutoCommitError f) := by
+  intro s hs
+  unfold handleAutoCommitError
+  split
+  · exact Good.refl hs
+  · split
+    · exact startErrback_pres cfg f hf s hs
+    · exact Good.refl hs
+theorem handleProcessorError_pres (cfg : Cfg) (f : Fail) (hf : f ≠ .tooSmall) : Pres cfg (handleProcessorError f) := by
+  intro s hs
+  unfold handleProcessorError
+  split
+  · exact Good.refl hs
+  · exact startErrback_pres cfg f hf s hs
 theorem stopRetry_pres (cfg : Cfg) : Pres cfg stopRetry := by pres_leaf [stopRetry]
 theorem stopTimers_pres (cfg : Cfg) : Pres cfg stopTimers := by pres_leaf [stopTimers]
 /-- `stop()`'s last statements, once the refetch timer is gone -/
